@@ -3,7 +3,7 @@
 none may exit 1 (false alarm); exit 2 (analysis error) is reported separately."""
 import glob, json, os, shutil, subprocess, sys, tempfile
 V = os.path.dirname(os.path.dirname(os.path.abspath(__file__)))
-dirs = sys.argv[1:] or sorted(glob.glob(os.path.join(V, "seeded", "refactor-*")))
+dirs = [os.path.abspath(a) for a in sys.argv[1:]] or sorted(glob.glob(os.path.join(V, "seeded", "refactor-*")))
 props = [c["property_id"] for c in json.load(open(os.path.join(V, "MANIFEST.json")))["checks"]]
 bad = 0
 for d in dirs:
